@@ -3,6 +3,7 @@ mod c01;
 mod c02;
 mod c03;
 mod c06;
+mod c07;
 mod c08;
 mod c09;
 mod c10;
@@ -42,6 +43,8 @@ fn run(args: &[String], tier: &str) -> i32 {
         "C02" => c02::run(tier),
         "C03" => c03::run(tier),
         "C06" => c06::run(tier),
+        "C07" => c07::run(tier),
+        "sim-smoke" => c07::smoke(),
         "C08" => c08::run(tier),
         "C09" => c09::run(tier),
         "C10" => c10::run(tier),
